@@ -246,7 +246,10 @@ class C09Run(StateRun):
             c.chosen = ch.pick(gone[-4:], 'pickgone')
             c.answer = c.chosen
         elif kind == 'noncircuit':
-            c.answer = ch.pick(['a string', 42, ('tuple',)], 'picknon')
+            # (also values that are false without being None: "no preference" is None, nothing else)
+            c.answer = ch.pick(['a string', 42, ('tuple',), [], (), False, 0, ''], 'picknon')
+            if not c.answer:
+                sim.probe('attacher-returns-falsy-noncircuit')
         elif kind == 'do-not-attach':
             c.answer = TorState.DO_NOT_ATTACH
         else:
